@@ -959,7 +959,7 @@ struct Digit {
             --index;
             index += SizeT(number_length - precision);
 
-            roundStringNumber(stream, index, power_increased, round_up);
+            roundStringNumber(stream, started_at, index, power_increased, round_up);
             storage = stream.Storage();
 
             if (is_positive_exp) {
@@ -1063,7 +1063,7 @@ struct Digit {
             if (diff <= precision) {
                 if (fraction_length > precision) {
                     index += SizeT(fraction_length - (precision + SizeT{1}));
-                    roundStringNumber(stream, index, power_increased, (round_up | (diff != 0)));
+                    roundStringNumber(stream, started_at, index, power_increased, (round_up | (diff != 0)));
                     storage = stream.Storage();
 
                     Char_T       *number = (storage + index);
@@ -1142,11 +1142,17 @@ struct Digit {
     }
 
     template <typename Stream_T>
-    static void roundStringNumber(Stream_T &stream, SizeT &index, bool &power_increased, bool round_up) {
+    static void roundStringNumber(Stream_T &stream, const SizeT started_at, SizeT &index, bool &power_increased,
+                                  bool round_up) {
         using Char_T = typename Stream_T::CharType;
 
         const Char_T *last   = stream.Last();
         Char_T       *number = (stream.Storage() + index);
+
+        // Any non-zero digit below the rounding digit makes a '5' more than a tie.
+        for (const Char_T *lower = (stream.Storage() + started_at); lower < number; ++lower) {
+            round_up |= (*lower != DigitUtils::DigitChar::Zero);
+        }
 
         ++index;
 
